@@ -70,7 +70,7 @@ CLAIMS.update({
     "C04": ("Lean 4 theorems: a release of tokens by processInterchainTransfer (no data) implies a true validateMessage for exactly (source chain, id, source address, payload hash) addressed to the service, which executes the approval; AT MOST ONCE OVER EVERY SCHEDULE: a release leaves the message executed at the end of its transaction, executed is absorbing under every operation of the world model (transactions to any contract, deliveries, callbacks: Proofs/GwHistory.step_life by induction over operation lists), and for an executed message the release step fails; execute refuses untrusted sources; unknown token id / malformed recipient / unknown message type fail; differential run of the real ITS+gateway+token manager vs the compiled model + Lean judge on every inbound execute",
             "Machine-checked proofs for all states, callers and payloads of the gating of an inbound release on gateway validation and trusted source, and of the failure cases; at-most-once is proved over all histories of the composed world (no_second_release), not only of the gateway alone. The real contracts are run against the model on approved / unapproved / replayed / wrong-source / unknown-token / malformed messages, hub-wrapped and direct, and judged by the property (recipient balance delta = payload amount, message executed, replays fail).",
             ITS_NOTE, "DESIGN.md §3 C04"),
-    "C05": ("Lean 4 theorems: get_transfer_and_gas_tokens returns exactly the three shapes of the property and conserves value (transfer + gas = attached); transmit refuses zero amount / empty destination / untrusted chain; the emitted payload is the ABI encoding of exactly (type, token id, sender, destination, amount, data) (round trip by C06/C07); differential run (all balances compared after every step) + Lean judge on every outbound transfer of the real ITS",
+    "C05": ("Lean 4 theorems: get_transfer_and_gas_tokens returns exactly the three shapes of the property and conserves value (transfer + gas = attached); transmit refuses zero amount / empty destination / untrusted chain; the emitted payload is the ABI encoding of exactly (type, token id, sender, destination, amount, data) (round trip by C06/C07); for EGLD / zero gas the complete event list of a successful transmission is proved (at most one gas-paid event with the sender as refund address, exactly one gateway contract-call event to the destination the trusted table prescribes carrying the routed payload and its hash, then the service's transfer event) together with the EGLD movement service -> gas service of exactly the gas value (outbound_message_events); differential run (all balances compared after every step) + Lean judge on every outbound transfer of the real ITS",
             "Machine-checked proofs of the payment split (all payment lists, all gas values), of the refusal cases and of the payload contents; conservation across sender / token manager / gas service / service is decided on the real contracts by comparing every account's balances with the model after each operation and by the judge (sender delta = payments, custody or burn = transfer amount, one contract_call event with the payload hash, gas forwarded with sender as refund address, service balances unchanged).",
             ITS_NOTE, "DESIGN.md §3 C05"),
     "C08": ("Lean 4 theorems: a locked (in-flight) message cannot start another delivery; starting needs the exact gateway approval and sets the lock; OVER EVERY SCHEDULE the lock is cleared by nothing but the callback of that very delivery (frame of the whole dispatcher for the lock table, Proofs/ItsLock.step_lock), a successful delivery ends with the message executed, and an executed message can never start again (no schedule delivers twice); exact shape of the success and failure callbacks; REFUTATION: if the token manager rejects the take-back (flow limit) the failure callback fails and the tokens stay in the service (finding F1), with the part that holds proved as _partial; differential run with execute / destination call / callback scheduled separately among other transactions + Lean judge on the real contracts",
@@ -82,7 +82,7 @@ CLAIMS.update({
     "C14": ("Lean 4 theorems: the three id derivations are the published hash shapes with the published prefixes (regenerated constants), depend only on (kind, chain-name hash, deployer, salt / token), bind their inputs (collision-or-equal), and are domain-separated between kinds; deploy_token_manager_raw refuses a token id that already has a manager and records exactly the manager created with the requested type/token/operator; init records its arguments; custom registration forbids the native type; OVER EVERY SCHEDULE a bound token id keeps its manager (binding_is_forever) and the stored inputs of the derivations never change (ids_are_stable_over_histories), by a frame proof over the whole endpoint dispatcher and induction over operation lists; differential run + judge on the real ITS",
             "Machine-checked proofs (for every hash function) of determinism, binding and domain separation of token ids, and that a token id gets at most one manager which is never replaced; the real service is run against the model (executable Keccak-256) so every id and every manager address the implementation computes is compared, including registrations by different deployers with equal salts.",
             ITS_NOTE, "DESIGN.md §3 C14"),
-    "C17": ("Lean 4 theorems: both getTokenProperties callbacks return the whole gas value to the original caller when the query failed or the token is not fungible; exact refund; REFUTATION: when the callback itself fails (hub / route removed in between, or payload refused) the gas value stays in the service (finding F2, two call sites), with the part that holds proved as _partial; differential run with the callbacks scheduled separately + Lean judge 'service holds nothing of the user value after the last step' on the real contracts",
+    "C17": ("Lean 4 theorems: both getTokenProperties callbacks return the whole gas value to the original caller when the query failed or the token is not fungible; exact refund; a successful metadata callback moves exactly the gas value out of the service, to the caller or to the gas service, nobody else's EGLD balance changes and the service keeps nothing (EGLD balance lemmas through payments, sends and sub-calls: Proofs/Balances); REFUTATION: when the callback itself fails (hub / route removed in between, or payload refused) the gas value stays in the service (finding F2, two call sites), with the part that holds proved as _partial; differential run with the callbacks scheduled separately + Lean judge 'service holds nothing of the user value after the last step' on the real contracts",
             "Machine-checked proofs of the refund and forward branches of the two asynchronous flows that carry user EGLD, and proofs that on the unchanged code a failing callback strands that EGLD (known findings F2a/F2b, replayed on the real contracts from corpus/C17 on every run). All user operations of the real service are run to completion under generated schedules and the service's balances are compared with their values before the operation.",
             ITS_NOTE, "DESIGN.md §3 C17, §4 F2"),
     "C18": ("Lean 4 theorems: a token manager's recorded token survives every endpoint call and every later issuance callback (after fix aeb366e); the issuance callback records exactly the returned identifier or nothing; step 1 of an inbound deploy message reads exactly the approval for its fields and leaves the gateway unchanged, step 2 consumes it, an executed message drives neither step, and executed is absorbing over every schedule (one_issuance_per_message); zero-supply deployment without minter, or with the service as minter, is refused; differential run with issue calls / callbacks scheduled separately + Lean judge on the real ITS and token manager",
